@@ -13,6 +13,9 @@ Clauses (DESIGN.md section 6, C14):
                sat) from 350 degC to the critical point, 1|2|4 (Clausius-Clapeyron) along the saturation line
  (6) region    classifier = reference predicate, and the named region's routine accepts the state, on the
                (T, p) lattice and on the neighbours of every limit
+ (7) history   repeatability / order independence: at every limit and ulp-neighbour state and a thinned lattice,
+               each routine twice in a row and every ordered pair of routines as f, g, f must reproduce bit for
+               bit the value the call has as the first call after a fresh import of the module
 All tolerances are in ref/thermo.py (TOL: noise-limited quantities, BAND: signed boundary jumps) with the
 measurement behind them.
 """
@@ -33,7 +36,8 @@ RULE = ('chains: every (chain table, index read by a caller with non-zero multip
         'lattices, which include exactly the critical density and the critical temperature +- 1 ulp (the zeros of the '
         'reduced variables of the viscosity correlation); boundaries: lattices along 350 degC, b23, the saturation line; classifier: (T lattice + ulp '
         'neighbours of 0.01, 350, tcritical, 590, 800) x (p lattice + ulp neighbours of 0, 100 MPa, sat(T), '
-        'b23p(T)).  One evaluation = one oracle decision on one state; distinct = distinct (clause, state); '
+        'b23p(T)); history: at each of those limit states and a thinned lattice, 9 routines x (twice in a row + every '
+        'ordered pair as f, g, f) against the value after a fresh import.  One evaluation = one oracle decision on one state; distinct = distinct (clause, state); '
         'non-trivial = the state lies inside the range the clause quantifies over (outer neighbours of a limit are '
         'executed and counted but carry no oracle except in the classifier clause)')
 ASSUMPTIONS = [
@@ -52,11 +56,11 @@ BOUNDS = {
     'quick': {'T_step_degC': 2, 'pressures_per_isotherm': 60, 'density_step': 10, 'sat_line_step_degC': 0.01,
               'b23_step_degC': 0.01, 'reverse_lattice_points': 400, 'boundary_350_points': 100,
               'boundary_b23_step_degC': 1, 'maxwell_step_degC': 0.5, 'clausius_step_degC': 2,
-              'chains': 'complete', 'limits': 'complete'},
+              'chains': 'complete', 'limits': 'complete', 'history_lattice': 'T every 50 degC x 4 pressures + all limit states'},
     'thorough': {'T_step_degC': 1, 'pressures_per_isotherm': 80, 'density_step': 5, 'sat_line_step_degC': 0.01,
                  'b23_step_degC': 0.01, 'reverse_lattice_points': 4000, 'boundary_350_points': 1000,
                  'boundary_b23_step_degC': 0.1, 'maxwell_step_degC': 0.25, 'clausius_step_degC': 0.5,
-                 'chains': 'complete', 'limits': 'complete'},
+                 'chains': 'complete', 'limits': 'complete', 'history_lattice': 'T every 10 degC x 4 pressures + all limit states'},
 }
 TECHNIQUE = ('bounded exhaustive enumeration: exponent-tracking symbolic run of the multiplication chains (complete '
              'over the tables), lattice + ulp-neighbour enumeration of (T,p)/(T,rho) states on the real routines '
@@ -792,6 +796,61 @@ def chk_region(I, t, p, tcls, pcls):
 
 
 # ----------------------------------------------------------------------------------------------------------
+# (7) repeatability and order independence (WAVE3): a call's value may not depend on the calls before it
+# ----------------------------------------------------------------------------------------------------------
+
+HISTORY_D = 500.0       # density handed to super / visc in the history sequences
+HISTORY_P = (1.0e5, 1.0e6, 2.3e7, 5.0e7)
+
+
+def fresh_library():
+    """Restore isolation: re-execute the module, as a new process would."""
+    import importlib
+    import IAPWS97
+    importlib.reload(IAPWS97)
+
+
+def history_states(I, tier):
+    """[((t, p), class)]: every limit / ulp-neighbour state of the classifier clause, the end points of tsat, and a
+    thinned (T, p) lattice."""
+    pts = {}
+    for t, tcls in limit_ts():
+        for p, pcls in class_pressures(I, t, 4):
+            pts[(t, p)] = region_class(tcls, pcls)
+    try:
+        plo = float(I.sat(R.T_MIN))
+    except Exception:
+        plo = 611.657
+    for lim in (plo, R.PCRIT97):
+        for p in R.around(lim):
+            pts.setdefault((100., p), 'p~tsat-limit')
+    for t in R.t_lattice(R.T_MAX, 50. if tier == 'quick' else 10.):
+        for p in HISTORY_P:
+            pts.setdefault((t, p), 'lattice')
+    return sorted(pts.items())
+
+
+def history_variants(I, t, p):
+    v = [('cowat', lambda: I.cowat(t, p)), ('supst', lambda: I.supst(t, p)), ('region', lambda: I.region(t, p)),
+         ('sat', lambda: I.sat(t)), ('b23p', lambda: I.b23p(t)), ('super', lambda: I.super(HISTORY_D, t)),
+         ('visc', lambda: I.visc(HISTORY_D, t))]
+    if p > 0.:
+        v += [('tsat', lambda: I.tsat(p)), ('b23t', lambda: I.b23t(p))]
+    return v
+
+
+def chk_history(I, t, p, cls):
+    n, bad = R.history_pass(fresh_library, history_variants(I, t, p), core.CaseTimeout)
+    viols = []
+    for name, prev, iso, got in bad:
+        viols.append(('C14|%s|result-depends-on-earlier-calls|after=%s|%s' % (name, prev, cls),
+                      'at (t, p, d) = (%r, %r, %r): %s gives %s as the first call after a fresh import but %s when '
+                      'called after %s (hex floats; the routines are pure functions)'
+                      % (t, p, HISTORY_D, name, iso, got, prev)))
+    return viols, n
+
+
+# ----------------------------------------------------------------------------------------------------------
 # units
 # ----------------------------------------------------------------------------------------------------------
 
@@ -826,6 +885,10 @@ def units(tier):
     for ch in t_chunks(t2, 2 * P['tchunk']):
         us.append(('class', ch[0], ch[-1]))
     us.append(('class-limits',))
+    n = len(history_states(lib(), tier))
+    step = 12 if tier == 'quick' else 40
+    for a in range(0, n, step):
+        us.append(('history', a, min(n, a + step)))
     return us
 
 
@@ -956,6 +1019,15 @@ def _explore(I, unit, tier, rec, W):
             v, m, oc = f(I, t)
             W.add(m)
             report(rec, (kind, t), v, {'clause': kind, 't': t}, True, '%s-%s' % (kind, oc))
+    elif kind == 'history':
+        sts = history_states(I, tier)[unit[1]:unit[2]]
+        for (t, p), cls in sts:
+            v, n = chk_history(I, t, p, cls)
+            rec.bulk(n, [('history', t, p, k) for k in range(n)],
+                     outcome='history-' + ('ok' if not v else 'differs'))
+            for sig, what in v:
+                rec.violation(sig, what, {'clause': 'history', 't': t, 'p': p, 'cls': cls})
+        rec.sample({'clause': 'history', 'states': len(sts), 'first': sts[0][0], 'calls_per_state': n})
     elif kind in ('class', 'class-limits'):
         lim = limit_ts()
         if kind == 'class':
@@ -1022,6 +1094,8 @@ def replay(case):
         return chk_x12(I, case['t'])[0]
     if c == 'region':
         return chk_region(I, case['t'], case['p'], case['tcls'], case['pcls'])[0]
+    if c == 'history':
+        return chk_history(I, case['t'], case['p'], case['cls'])[0]
     if c == 'need':
         return chk_need(I, case['site'], case['x']) if case.get('x') is not None else []
     raise core.HarnessError('unknown clause %r' % c)
